@@ -9,3 +9,86 @@ Proof. exact regroup_roundtrip. Qed.
 
 Theorem regroup_back_law_holds : regroup_back_law.
 Proof. exact regroup_back. Qed.
+
+(* ------------------------------------------------------------------ *)
+(* network attribution is exclusive for EVERY string (fix 233bf85: the   *)
+(* whole human-readable part is compared)                               *)
+(* ------------------------------------------------------------------ *)
+Lemma hrps_exclusive h n n' : In n nets -> In n' nets -> In h (hrps n) -> In h (hrps n') -> n = n'.
+Proof.
+  intros H H' I I'.
+  apply in_nets in H as [-> | [-> | ->]]; apply in_nets in H' as [-> | [-> | ->]]; try reflexivity; exfalso;
+    cbn in I, I'; repeat (destruct I as [I|I]; [subst h|]); try contradiction;
+    repeat (destruct I' as [I'|I']; [vm_compute in I'; discriminate I'|]); contradiction.
+Qed.
+
+Theorem attribution_exclusive (b58dec : bytes -> option (bytes * byte)) s n :
+  network_for_address b58dec s = Ok n ->
+  In n nets /\
+  ((In (segwit_prefix s) (hrps n) /\ forall n', In n' nets -> In (segwit_prefix s) (hrps n') -> n' = n) \/
+   (net_by_hrp s = None /\ exists d v, b58dec s = Some (d, v) /\ In v (versions n) /\
+      forall n', In n' nets -> In v (versions n') -> n' = n)).
+Proof.
+  unfold network_for_address. destruct (net_by_hrp s) as [m|] eqn:E.
+  - intro H; inversion H; subst m. unfold net_by_hrp in E. apply find_some in E as [I B]. split; [exact I|]. left.
+    assert (Ih : In (segwit_prefix s) (hrps n)).
+    { unfold is_hrp in B. apply orb_true_iff in B as [B|B]; apply bytes_eqb_eq in B; rewrite B; cbn; tauto. }
+    split; [exact Ih|]. intros n' I' Ih'. symmetry. eapply hrps_exclusive; eassumption.
+  - destruct (b58dec s) as [[d v]|] eqn:D; [|discriminate].
+    destruct (net_by_version v) as [m|] eqn:V; [|discriminate]. intro H; inversion H; subst m.
+    unfold net_by_version in V. apply find_some in V as [I B]. split; [exact I|]. right. split; [reflexivity|].
+    exists d, v. split; [reflexivity|].
+    assert (Iv : In v (versions n)).
+    { apply orb_true_iff in B as [B|B]; [apply orb_true_iff in B as [B|B]|]; apply beqb_eq in B; rewrite B; cbn; tauto. }
+    split; [exact Iv|]. intros n' I' Iv'. symmetry. eapply version_bytes_disjoint; eassumption.
+Qed.
+
+(* ------------------------------------------------------------------ *)
+(* a recognised confidential segwit string IS the canonical encoding of   *)
+(* (its network, version, blinding key, program)                          *)
+(* ------------------------------------------------------------------ *)
+Lemma accepted_single_case s hrp data : decode s = DOk hrp data -> map to_lower s = s \/ map to_upper s = s.
+Proof.
+  unfold decode. rewrite decode_generic_unfold.
+  destruct (len_bad s); [discriminate|]. destruct (negb (forallb char_ok s)); [discriminate|].
+  destruct (case_bad s) eqn:C; [discriminate|]. intros _. unfold case_bad in C.
+  apply andb_false_iff in C as [C|C]; apply negb_false_iff, bytes_eqb_eq in C; [left | right]; symmetry; exact C.
+Qed.
+
+Lemma hrp_not_upper n : In n nets -> map to_upper (n_blech32 n) <> n_blech32 n.
+Proof. intro H. apply in_nets in H as [-> | [-> | ->]]; vm_compute; discriminate. Qed.
+
+Lemma segwit_prefix_map (f : byte -> byte) s : (forall x, beqb (f x) sep = beqb x sep) ->
+  segwit_prefix (map f s) = map f (segwit_prefix s).
+Proof.
+  intro Hf. unfold segwit_prefix.
+  assert (L : last_index sep (map f s) = last_index sep s).
+  { unfold last_index. generalize O (@None nat). induction s as [|x s IH]; intros i acc; cbn [map last_index_from]; [reflexivity|].
+    rewrite Hf. apply IH. }
+  rewrite L. destruct (last_index sep s); [apply firstn_map | reflexivity].
+Qed.
+
+Lemma sep_upper x : beqb (to_upper x) sep = beqb x sep.
+Proof. destruct x; reflexivity. Qed.
+
+Theorem blech32_recognised_canonical s n p v k pr : In n nets ->
+  is_hrp s (n_blech32 n) = true -> from_blech32 s = Ok (p, v, k, pr) ->
+  p = n_blech32 n /\ to_blech32 (n_blech32 n) v k pr = Ok s.
+Proof.
+  intros Hn Hh F. pose proof (blech32_recognised_reencodes s p v k pr regroup_back_law_holds F) as R.
+  unfold is_hrp in Hh. apply bytes_eqb_eq in Hh.
+  assert (D : exists data, decode s = DOk p data).
+  { unfold Addr.from_blech32 in F. destruct (last_index sep s); [|discriminate]. destruct (_ <=? 1)%nat; [discriminate|].
+    destruct (decode s) as [h data| |]; try discriminate. destruct data as [|v' rest]; [discriminate|].
+    destruct (16 <? n8 v'); [discriminate|]. destruct (convert_bits rest 5 8 false); [|discriminate].
+    destruct (_ || _)%bool; [discriminate|]. destruct (_ && _)%bool; [discriminate|].
+    injection F as <- _ _ _. eexists; reflexivity. }
+  destruct D as [data D].
+  assert (Low : map to_lower s = s).
+  { destruct (accepted_single_case s p data D) as [L|U]; [exact L|]. exfalso.
+    apply (hrp_not_upper n Hn). rewrite <- Hh, <- (segwit_prefix_map to_upper s sep_upper), U. reflexivity. }
+  destruct (accepted_shape s p data D) as (syms & cs & TC & Sh & _ & _). rewrite Low in Sh.
+  assert (NS : Forall (fun c => beqb c sep = false) cs) by (apply to_chars_facts in TC; tauto).
+  assert (Ep : p = n_blech32 n) by (rewrite <- Hh, Sh; symmetry; apply segwit_prefix_canon; exact NS).
+  split; [exact Ep|]. rewrite <- Ep. rewrite Low in R. exact R.
+Qed.
